@@ -116,7 +116,7 @@ func hostileWorkload(r *mon.Run, run func(hostileCase) (consumedIfAllRejected in
 	// (a') annotation bodies: token strings placed inside `1 /* … */` and after `1 // `, so that rule values
 	// (enum / or lists, rule-sets, references) meet comments, notes and line breaks in every order
 	{
-		annAlpha := []string{"{", "}", "{enum:", "{or:", "{min:", "{type:", "[", "]", ",", "1", `"a"`, `"string"`, "@e", "// c\n", "/* c */", "\n", " - note", "# c\n"}
+		annAlpha := []string{"{", "}", "{enum:", "{or:", "{min:", "{type:", "[", "]", ",", "1", `"a"`, `"string"`, `""`, "@e", "// c\n", "/* c */", "\n", " - note", "# c\n"}
 		L := r.Pick(5, 6)
 		var visited int64
 		gen.TokensShardedAt(annAlpha, L, 2, r.Shard, mon.LogicalShards, func(s []byte, n int, dup bool) bool {
@@ -257,6 +257,34 @@ func hostileWorkload(r *mon.Run, run func(hostileCase) (consumedIfAllRejected in
 				p.Types = append(p.Types, typeDef{Name: names[k], Text: instTemplate(refTemplates[prng.IntN(nt)], names[prng.IntN(3)], names[prng.IntN(3)])})
 			}
 			run(hostileCase{Kind: "project", Project: &p, Source: "sampled reference templates over 3 types"})
+		}
+	}
+	// (d') a defect that only Check() finds, placed inside a member that other types inherit through allOf or reach
+	// through references: the diagnostic must point into the text that holds the member, whichever type is checked first
+	{
+		defects := []string{`1 // {min: 5}`, `"x" // {type: "@missing"}`, `"abc" // {regex: "^z"}`, `2.5 // {precision: 0}`, `"q" // {enum: [1, 2]}`, `[1] // {maxItems: 0}`, `null // {type: "string"}`,
+			`{} // {allOf: "@missing"}`, `1 // {or: [{type: "string"}, {type: "@missing", nullable: true}]}`}
+		pads := []string{"", "\n\n\n\n                                  ", "# a comment line before the member\r\n\t"}
+		di := 0
+		for _, defect := range defects {
+			for _, pad := range pads {
+				for _, names := range [][2]string{{"@a", "@m"}, {"@z", "@m"}, {"@m", "@a"}} {
+					heir, base := names[0], names[1]
+					if r.Mine(di) {
+						baseText := "{\n" + pad + `"x": ` + defect + "\n}"
+						for _, p := range []project{
+							{Root: `{"r": ` + heir + `}`, Types: []typeDef{{Name: heir, Text: "{ // {allOf: \"" + base + "\"}\n \"k\": 1\n}"}, {Name: base, Text: baseText}}},
+							{Root: "{ // {allOf: \"" + heir + "\"}\n \"own\": true\n}", Types: []typeDef{{Name: heir, Text: "{ // {allOf: \"" + base + "\"}\n \"k\": 1\n}"}, {Name: base, Text: baseText}}},
+							{Root: `[` + heir + `]`, Types: []typeDef{{Name: heir, Text: `{"k": ` + base + `}`}, {Name: base, Text: baseText}}},
+							{Root: "{ // {allOf: \"" + base + "\"}\n \"own\": true\n}", Types: []typeDef{{Name: base, Text: baseText}}},
+						} {
+							p := p
+							run(hostileCase{Kind: "project", Project: &p, Source: "check-time defect inside an inherited / referenced member"})
+						}
+					}
+					di++
+				}
+			}
 		}
 	}
 	// (f) numbers with exponents at the machine-word boundaries
@@ -415,7 +443,7 @@ func init() {
 		ID:                 "C02",
 		Run:                func(r *mon.Run) { hostileRun(r, c02Judge(r)) },
 		Replay:             hostileReplay(c02Judge),
-		Rule:               "hostile inputs to every public entry point (JSchema Len/Check/Example/GetAST/UsedUserTypes/AddType/AddRule, Enum Len/Check/Values/GetAST, RSchema Check/Len/Example/GetAST/Pattern/AddType, Document Check/Len/NextLexeme in both modes, NewNumber, GuessSchemaType, OpenAPI conversion of accepted schemas), each call on fresh objects under a recover: (a) every token string up to a length bound per family (schema 34 tokens, len 3 quick / 5 thorough, with viable-prefix pruning from the H3 scanner probe; enum, regex, number, document alphabets; every number-shaped byte string over 0 1 - + . e x up to 5 / 6 hosted in an enum rule, a schema value, a rule value and a document; annotation bodies: 18 compound tokens up to 5 / 6 inside `1 /* … */` and after `1 // `), (b) every truncation, token deletion/duplication/substitution and CRLF/CR variant of every string literal harvested from the repository's tests, (c) random byte and token soups up to 9 KiB, (d) all 1-type (and, thorough, 2-type; sampled 2/3-type) projects of self/mutually referencing user types from 18 reference templates, (e) nesting ladder up to 2000 (quick) / 10000 (thorough). A violation is an escaped panic, a worker death or CPU-budget overrun that reproduces in a fresh process, or a scan using more than 2*len+8 steps. distinct_nontrivial = distinct (entry family, text) / projects (hashed).",
+		Rule:               "hostile inputs to every public entry point (JSchema Len/Check/Example/GetAST/UsedUserTypes/AddType/AddRule, Enum Len/Check/Values/GetAST, RSchema Check/Len/Example/GetAST/Pattern/AddType, Document Check/Len/NextLexeme in both modes, NewNumber, GuessSchemaType, OpenAPI conversion of accepted schemas), each call on fresh objects under a recover: (a) every token string up to a length bound per family (schema 34 tokens, len 3 quick / 5 thorough, with viable-prefix pruning from the H3 scanner probe; enum, regex, number, document alphabets; every number-shaped byte string over 0 1 - + . e x up to 5 / 6 hosted in an enum rule, a schema value, a rule value and a document; annotation bodies: 19 compound tokens (incl. the empty string) up to 5 / 6 inside `1 /* … */` and after `1 // `), (b) every truncation, token deletion/duplication/substitution and CRLF/CR variant of every string literal harvested from the repository's tests, (c) random byte and token soups up to 9 KiB, (d) all 1-type (and, thorough, 2-type; sampled 2/3-type) projects of self/mutually referencing user types from 18 reference templates, (d') 81 x 4 projects with a check-time defect inside a member that other types inherit through allOf or reach by reference (heir named before and after the base, member behind padding lines), (e) nesting ladder up to 2000 (quick) / 10000 (thorough). A violation is an escaped panic, a worker death or CPU-budget overrun that reproduces in a fresh process, or a scan using more than 2*len+8 steps. distinct_nontrivial = distinct (entry family, text) / projects (hashed).",
 		MinNontrivialQuick: 100000, MinNontrivialThorough: 1000000,
 		Assumptions: []string{"inputs up to 64 KiB and nesting up to 10^4 (deeper nesting costs tens of CPU-seconds per call on this tree: slow, but it returns); exponents above 10^6 are rejected by the library since the fix recorded in known_findings.jsonl", "OpenAPI conversion is only exercised for accepted schemas",
 			"a process death counts only if it reproduces on the same case in a fresh process; CPU budget 300 s per case (process CPU time, not wall clock)"},
